@@ -98,23 +98,9 @@ def task_pairs(arg):
     return out.dump()
 
 
-def task_big_table(arg):
-    """A inside a table of more than a thousand rows made of relabelled copies of other households."""
-    date_iso, name_a, nrows = arg
-    out = Partial()
-    year = int(date_iso[:4])
-    rows_a = popgen.library_rows(name_a, year)
-    dfa = popgen.frame(rows_a)
-    keys = dfa["p_id"].tolist()
-    try:
-        alone = sim.sim_all(dfa, date_iso)
-    except Exception as e:  # noqa: BLE001
-        if sim.known_crash(date_iso, e):
-            out.count("sims_skipped_known_C08_crash")
-        else:
-            out.violation(f"simulation-raises:{type(e).__name__}", {"date": date_iso, "population": name_a}, repr(e)[:300])
-        return out.dump()
-    others = [n for n in popgen.LIBRARY if n != name_a]
+def filler_rows(year, nrows, skip=None):
+    """At least `nrows` rows made of relabelled copies of the library households (all but `skip`), ids disjoint from the library's."""
+    others = [n for n in popgen.LIBRARY if n != skip]
     filler = []
     k = 0
     while len(filler) < nrows:
@@ -130,10 +116,47 @@ def task_big_table(arg):
                 c["alter"] = min(r["alter"] + 30, 100) if r["alter"] >= 40 else r["alter"]
             filler.append(c)
         k += 1
-    rows = filler + rows_a + filler[:0]  # A sits behind all the other rows
+    return filler
+
+
+def task_big_table(arg):
+    """A inside a table of more than a thousand rows made of relabelled copies of other households."""
+    date_iso, name_a, nrows = arg[:3]
+    placement = arg[3] if len(arg) > 3 else "last"
+    out = Partial()
+    year = int(date_iso[:4])
+    rows_a = popgen.library_rows(name_a, year)
+    if placement in ("split-tail-first", "spread-reversed"):
+        rows_a = rows_a[::-1]  # the reference run keeps A's rows in the same relative order, so float sums within A associate alike
+    dfa = popgen.frame(rows_a)
+    keys = dfa["p_id"].tolist()
+    try:
+        alone = sim.sim_all(dfa, date_iso)
+    except Exception as e:  # noqa: BLE001
+        if sim.known_crash(date_iso, e):
+            out.count("sims_skipped_known_C08_crash")
+        else:
+            out.violation(f"simulation-raises:{type(e).__name__}", {"date": date_iso, "population": name_a}, repr(e)[:300])
+        return out.dump()
+    filler = filler_rows(year, nrows, skip=name_a)
+    if placement == "last":  # A sits behind all the other rows
+        rows = filler + rows_a
+    elif placement == "first":
+        rows = rows_a + filler
+    elif placement == "split-head-first":  # A's first row opens the table, its other rows close it
+        rows = rows_a[:1] + filler + rows_a[1:]
+    elif placement == "split-tail-first":  # A's rows in reverse order (children before their parents), the last one far ahead of the others
+        rows = rows_a[:1] + filler + rows_a[1:]
+    else:  # A's rows in reverse order spread evenly over the table
+        rev = rows_a
+        step = max(len(filler) // max(len(rev), 1), 1)
+        rows = []
+        for i, r in enumerate(rev):
+            rows += [r] + filler[i * step : (i + 1) * step]
+        rows += filler[len(rev) * step :]
     df = popgen.frame(rows)
-    case = {"date": date_iso, "A": name_a, "rows": len(df), "placement": "middle of a table of relabelled copies of the other households"}
-    out.state((date_iso, name_a, "big-table"))
+    case = {"date": date_iso, "A": name_a, "big_table_rows": nrows, "rows": len(df), "placement": placement}
+    out.state((date_iso, name_a, "big-table", nrows, placement))
     try:
         joint = sim.sim_all(df, date_iso)
     except Exception as e:  # noqa: BLE001
@@ -295,7 +318,10 @@ def check_id_arithmetic(rep):
 def replay(case):
     date_iso = case["date"]
     year = int(date_iso[:4])
-    if "A" in case:
+    if "big_table_rows" in case:
+        part = task_big_table((date_iso, case["A"], case["big_table_rows"], case["placement"]))
+        return not part["violations"], "; ".join(v[2] for v in part["violations"][:3])
+    if "A" in case and "B" in case:
         rows_a, rows_b = popgen.library_rows(case["A"], year), popgen.library_rows(case["B"], year)
         pl = case["placement"]
         if pl == "after":
@@ -332,12 +358,17 @@ def run(tier):
     for part in harness.pmap(task_relabel, harness.rotate(rl)):
         rep.merge(part)
     bt = [(d, a, 4400) for d in dates[-1:] for a in names] if not thorough else [(d, a, n) for d in dates[::5] for a in names for n in (4400, 9000)]
+    # households whose rows point at each other, with their rows far apart in tables just above typical block sizes
+    pointing = [a for a in names if any(r[c] >= 0 for r in popgen.library_rows(a, 2023) for c in ID_LIKE if c != "p_id")]
+    places = ["first", "split-head-first", "split-tail-first", "spread-reversed"]
+    bt += [(d, a, n, pl) for d in (dates[::5] if thorough else dates[-1:]) for a in pointing for pl in places
+           for n in ((1030, 2060, 4400) if thorough else (1030,))]
     for part in harness.pmap(task_big_table, harness.rotate(bt)):
         rep.merge(part)
     check_id_arithmetic(rep)
     check_large_arrays(rep)
     rep.bound = {"dates": dates, "households": names, "placements": "B after A; B before A in every rotation of B (each B row first once); interleaved",
-                 "relabellings": list(RELABEL), "big_table_rows": "4400 (thorough also 9000), A placed last", "max_p_id": 6007 * 160, "max_hh_id": 601 * 16}
+                 "relabellings": list(RELABEL), "big_table_rows": "4400 (thorough also 9000), A placed last; 1030 (thorough also 2060, 4400) with A first / split across both ends / reversed and spread", "max_p_id": 6007 * 160, "max_hh_id": 601 * 16}
     rep.assumptions = ["ids are kept below 10^6 (p_id) / 10^4 (hh_id): numpy_groupies allocates max(id)+1 slots and derived ids are hh_id*100",
                        "comparison is bit-exact on every non-id node (joint vs alone keeps the evaluation order within A's groups)"]
     return rep.finish(
